@@ -1,6 +1,6 @@
 (* Property C01 — a single-variable query is an exact, ordered, duplicate-free domain filter.
    Only statements, `exact`, and Print Assumptions. *)
-From EQL Require Import Base Values Syntax Spec Generated Elab Elab_Facts EvalPure EvalPure_Facts OneVar_Facts Elab_Frag.
+From EQL Require Import Base Values Syntax Spec Generated Elab Elab_Facts EvalPure EvalPure_Facts OneVar_Facts Elab_Frag Lazy Lazy_Facts.
 
 (* For EVERY heap, EVERY domain, EVERY condition the user can write over the one variable x (any nesting of and_/or_/not_
    over the six comparisons written either way round, in_/contains, attribute chains, indexes, method calls and expressions
@@ -25,6 +25,16 @@ Print Assumptions C01_elab_total.
 Theorem C01_no_condition : forall h dom x, run_query h dom [TVar x] None = map (fun v => [v]) (dom x).
 Proof. exact one_var_all. Qed.
 Print Assumptions C01_no_condition.
+
+(* the same over the LAZILY CONSUMED, memoised domain (Lazy.v: the model of HashedIterable), after any history of full, abandoned
+   and aborted evaluations of any queries over the variable: the objects of the supplied sequence d (distinct objects) that
+   qualify, in the order supplied, each once *)
+Theorem C01_over_lazy_domain : forall pool ops q d, NoDup d -> fst (full q (lafter pool (fresh d) ops)) = filter q d.
+Proof.
+  intros pool ops q d N. rewrite history_independent, full_rows. unfold content, fresh. cbn [mat rem app].
+  now rewrite (fresh_of_nodup d [] N).
+Qed.
+Print Assumptions C01_over_lazy_domain.
 
 (* non-vacuity: a concrete heap, a five-object domain and a condition with nested negation, a literal on the left,
    membership and an expression in condition position meet the hypotheses; two of five objects qualify, in domain order *)
